@@ -813,7 +813,18 @@ bool TypeAuditor::ViRecursion(Cursor iter) {
   }
 
   EndScope(iter->pos.start);
-  return SetCurrent(iterationValue.value());
+  // Note: the result is the initial value when no step is made, so its type takes part in the result type
+  auto resultType = env.Merge(std::get<Typification>(iterationValue.value()), std::get<Typification>(initType.value()));
+  if (!resultType.has_value()) {
+    OnError(
+      SemanticEID::typesNotEqual,
+      iter(iterationIndex).pos.start,
+      iterationValue.value(),
+      initType.value()
+    );
+    return false;
+  }
+  return SetCurrent(std::move(resultType.value()));
 }
 
 bool TypeAuditor::ViDecart(Cursor iter) {
